@@ -314,6 +314,9 @@ def f3_files(tier, daqmx=True, scaled=True):
                                                    ("/'late'/'x'", ['NODATA'], [_sprop('unit', 'V')])])]))
     out.append(('special/props-only-middle', [G.seg([(A, _full('Int32', 2))]), G.seg([(A, ['NODATA'], [_sprop('k', 'v')])], newlist=False),
                                               G.seg([(A, ['SAME'])], newlist=False)]))
+    out.append(('special/short-final-contiguous', [G.seg([(B, _full('Int16', 3)), (A, _full('Int32', 2))], chunks=1),
+                                                   G.seg([(B, _full('Int16', 3)), (A, _full('Int32', 2))], chunks=3, short=6)]))
+    out.append(('special/short-final-interleaved', [G.seg([(B, _full('Int16', 2)), (A, _full('Int32', 2))], chunks=3, interleaved=True, short=5)]))
     out.append(('special/many-segments', [G.seg([(A, _full('Int32', 1)), (B, _full('Int16', 2))])] +
                 [G.seg([], meta=False, chunks=1 + (i % 2)) for i in range(7)]))
     return out
